@@ -32,7 +32,7 @@ import sys
 sys.path.insert(0, os.path.dirname(os.path.abspath(__file__)))
 import extract  # noqa: E402
 from extract import CutError, Source, apply_rules, cut_fn, cut_item, cut_macro, _sub  # noqa: E402
-from rustlex import mask, match_close, code_find, CODE  # noqa: E402
+from rustlex import mask, match_close, code_find, line_of, CODE  # noqa: E402
 
 
 def _parse_directive(line):
@@ -313,6 +313,30 @@ def process_template(unit, tmpl_path, repo_root):
             for k, l in enumerate(inc_lines):
                 asm.emit(l, ('include', toks[1], k + 1))
             asm.includes.append(inc)
+            i += 1
+            continue
+        if d == 'table':
+            # //@table path=<file> macro=<NAME> arg=<k> name=<spec fn name>: the k-th argument (0-based) of every
+            # invocation NAME!( ... ) in the file, as a spec sequence of integer literals -- a fact of the table in /repo
+            _, kv = _kv(toks[1:])
+            src = Source.get(repo_root, kv['path'])
+            t_, m_ = src.text, src.mask
+            vals = []
+            for mm in re.finditer(r'\b' + re.escape(kv['macro']) + r'!\s*\(', t_):
+                if m_[mm.start()] != CODE:
+                    continue
+                o_ = mm.end() - 1
+                c_ = match_close(t_, m_, o_)
+                args_ = extract._split_args(t_[o_ + 1:c_])
+                k_ = int(kv['arg'])
+                if len(args_) <= k_ or not re.match(r'^-?\d+$', args_[k_].strip()):
+                    raise CutError('table %s: invocation at %s:%d has no integer literal as argument %d' % (kv['macro'], kv['path'], line_of(t_, mm.start()), k_))
+                vals.append(args_[k_].strip())
+            if not vals:
+                raise CutError('table %s: no invocation found in %s' % (kv['macro'], kv['path']))
+            asm.emit('pub open spec fn %s() -> Seq<int> { seq![%s] }' % (kv['name'], ', '.join(v + 'int' for v in vals)), ('table', kv['path'], kv['macro'], len(vals)))
+            asm.cuts.append({'kind': 'table', 'name': kv['name'], 'where': '%s: %d invocations of %s!, argument %d' % (kv['path'], len(vals), kv['macro'], int(kv['arg'])),
+                             'sha256_16_repo_text': __import__('hashlib').sha256(','.join(vals).encode()).hexdigest()[:16], 'dropped': {}, 'asserts_in_code': 0})
             i += 1
             continue
         if d == 'opaque_consts_here':
